@@ -1,4 +1,4 @@
-CONSTANTS NodeId = 5  HbInit = 0  Walk = TRUE  WalkLen = 40  EvCap = 3
+CONSTANTS NodeId = 5  HbInit = 0  Walk = TRUE  WalkLen = 40  EvCap = 3  PoolN = 16
 CONSTANT Letters <- L11  HcInit <- HC11  ProbeLetters <- P11
 INIT Init
 NEXT Next
